@@ -443,3 +443,90 @@ def positive(fn, fx, o, depth=0):
             continue
         return False
     return True
+
+
+MAP_RX = r"(HashMap|BTreeMap|IndexMap)(<.*>)?"
+
+
+def map_inserts(fn, field):
+    """calls that store a new entry into the map `.field`: `map.insert(k, v)`, or - entry API - `VacantEntry::insert` /
+    `Entry::or_insert*` on an entry obtained from `map.entry(k)`"""
+    out = [c for c in fn.calls(MAP_RX + r"::insert$") if ("." + field) in fn.recv(c)]
+    ent = [c for c in fn.calls(MAP_RX + r"::entry$") if ("." + field) in fn.recv(c)]
+    if ent:
+        names = {c.name for c in ent}
+        for c in fn.calls(r"(VacantEntry|Entry)(<.*>)?::(insert|insert_entry|or_insert|or_insert_with|or_insert_with_key|or_default)$"):
+            if c.args and any(("call", n) in fn.roots(c.args[0]) for n in names):
+                out.append(c)
+    return out
+
+
+def map_presence_edges(fn, field):
+    """(present, absent): CFG edges on which the looked-up key is known to be in / not in the map `.field` - from `get` / `get_mut`
+    (Some / None), `contains_key` (true / false) and the entry API (Occupied / Vacant)"""
+    present, absent = set(), set()
+    for c in fn.calls(MAP_RX + r"::(get|get_mut)$"):
+        if ("." + field) not in fn.recv(c) or not c.dest:
+            continue
+        cp = fn.copies_of(c.dest[0]) | {c.dest[0]}
+        for sw in fn.discr_switches():
+            if sw[1] and sw[1][0] in cp and len(sw[1]) == 1:
+                some, none = fn.variant_edges(sw, "Some"), fn.variant_edges(sw, "None")
+                present |= {(sw[0], l) for l in some if l not in none}
+                absent |= {(sw[0], l) for l in none if l not in some}
+    for c in fn.calls(MAP_RX + r"::contains_key$"):
+        if ("." + field) in fn.recv(c) and c.dest:
+            for sw, t, f in fn.bool_tests(c.dest[0]):
+                present.add((sw, t))
+                absent.add((sw, f))
+    for c in fn.calls(MAP_RX + r"::entry$"):
+        if ("." + field) not in fn.recv(c) or not c.dest:
+            continue
+        cp = fn.copies_of(c.dest[0]) | {c.dest[0]}
+        for sw in fn.discr_switches():
+            if sw[1] and sw[1][0] in cp and len(sw[1]) == 1:
+                occ, vac = fn.variant_edges(sw, "Occupied"), fn.variant_edges(sw, "Vacant")
+                present |= {(sw[0], l) for l in occ if l not in vac}
+                absent |= {(sw[0], l) for l in vac if l not in occ}
+    return present, absent
+
+
+def nested_closures(fx, fn):
+    """bodies of the closures written inside `fn` - including those of new helpers that were inlined into it (their closures are
+    keyed under the helper's path, engine/inline.py)"""
+    prefixes = [fn.key] + [k for k in (fn.rec.get("inlined") or []) if not k.startswith("combinator:")]
+    out, seen = [], set()
+    for pfx in prefixes:
+        for k in sorted(fx._raw):
+            if k.startswith(pfx + "::{closure#") and k not in seen and k != fn.key and k not in prefixes:
+                seen.add(k)
+                f = fx.fn(k)
+                if f is not None:
+                    out.append(f)
+    return out
+
+
+def enum_tests(fn, adt_rx, variant):
+    """tests of `x is <variant>` for a field-less enum matching adt_rx, in every spelling: `x == E::V` (PartialEq::eq against the
+    constant), `x != E::V`, `matches!(x, E::V)` / `match x { E::V => .. }` (discriminant switch).
+    -> [(switch_node, label when x is the variant, label when it is not)]"""
+    adt_rx = re.compile(adt_rx) if isinstance(adt_rx, str) else adt_rx
+    out = []
+    for c in fn.calls(r"::(eq|ne)$"):
+        if not any(adt_rx.search(a) for a in c.f.get("args", []) if isinstance(a, str)) and not any(adt_rx.search(fn.locals[(a.get("m") or a.get("c") or [0])[0]]) for a in c.args if (a.get("m") or a.get("c"))):
+            continue
+        const_v = any(fn.roots(a) and all(r[0] == "const" and r[1].endswith("::" + variant) for r in fn.roots(a)) for a in c.args)
+        if not const_v or not c.dest:
+            continue
+        for sw, t, f in fn.bool_tests(c.dest[0]):
+            out.append((sw, t, f) if c.name.endswith("eq") else (sw, f, t))
+    for sw in fn.discr_switches():
+        if not (sw[2] and adt_rx.search(sw[2])):
+            continue
+        ve = fn.variant_edges(sw, variant)
+        others = [l for w in list(sw[3]) + list(sw[5]) if w != variant for l in fn.variant_edges(sw, w)]
+        ve = [l for l in ve if l not in others]
+        if ve and others:
+            out.append((sw[0], ve[0], others[0]))
+    return out
+
